@@ -224,7 +224,7 @@ func runPool(p *Prop, b *Batch, n int, verifSeed uint64, a *agg, lanes int, dead
 				r := w.Do(Request{ID: int64(k), Engine: b.Engine, Seed: seed, Knobs: b.Knobs})
 				if r.Crashed {
 					kind, frame := crashFrame(r.Stderr)
-					r.V = &Violation{Oracle: "no-crash", Sig: p.ID + "/" + kind + "/" + frame, Msg: "worker process died during the run:\n" + tail(r.Stderr, 1500)}
+					r.V = &Violation{Oracle: "no-crash", Sig: p.ID + "/" + kind + "/" + frame, Msg: "worker process died during the run:\n" + headOf(r.Stderr, 1800)}
 					r.Engine = b.Engine
 				}
 				a.add(b, r)
@@ -551,7 +551,7 @@ func doReplay(path string) int {
 	}
 	if r.Crashed {
 		kind, frame := crashFrame(r.Stderr)
-		r.V = &Violation{Oracle: "no-crash", Sig: p.ID + "/" + kind + "/" + frame, Msg: tail(r.Stderr, 1500)}
+		r.V = &Violation{Oracle: "no-crash", Sig: p.ID + "/" + kind + "/" + frame, Msg: headOf(r.Stderr, 1800)}
 	}
 	for _, l := range r.Log {
 		fmt.Println("  |", l)
